@@ -25,6 +25,10 @@ SimLayouts == {[sz |-> s, al |-> a] : s \in {0, 1, 3, 8, 16, 17, 24, 40, 100, 30
               \cup {[sz |-> 16, al |-> 4096], [sz |-> 5000, al |-> 8]}
 
 Wraps == {"none", "wd", "ws", "both"}
+\* element layouts of the exclusive-borrow collections (u8, [u8; 3], u16, u32, u64, [u64; 3], a 32-byte type aligned to 32)
+SimElems == {[sz |-> 1, al |-> 1], [sz |-> 3, al |-> 1], [sz |-> 2, al |-> 2], [sz |-> 4, al |-> 4], [sz |-> 8, al |-> 8],
+             [sz |-> 24, al |-> 8], [sz |-> 32, al |-> 32]}
+McElems == {[sz |-> 3, al |-> 1], [sz |-> 8, al |-> 8]}
 
 \* Model-checking step relation: parameters that do not influence the successor state (zeroed; wrappers that an
 \* operation ignores) are fixed, so that TLC does not generate the same successor several times.
@@ -49,6 +53,10 @@ Next ==
     \/ \E lvl \in ClaimLevels, op \in {"alloc", "grow", "dealloc", "shrink"}, id \in LiveIds \cup {0}, l \in Layouts : ClaimedOp(lvl, op, id, l)
     \/ \E n \in {1, 8, 16}, sc \in Bools : EnterAligned(n, sc)
     \/ ExitAligned("return")
+    \/ \E e \in McElems, rv \in Bools, c0 \in {0, 3}, f \in Bools : EnterPrep(e, rv, c0, f)
+    \/ \E f \in Bools : PrepPush(f)
+    \/ PrepCommit
+    \/ PrepDrop("return")
 
 Spec == Init /\ [][Next]_vars
 
@@ -83,6 +91,12 @@ SimStep ==
     \/ (ClaimLevels # {} /\ LiveIds # {} /\ ClaimedOp(R(ClaimLevels), R({"grow", "dealloc", "shrink"}), R(LiveIds), R(Layouts)))
     \/ EnterAligned(R({1, 2, 4, 8, 16}), R(Bools))
     \/ ExitAligned(R({"return", "unwind"}))
+    \/ EnterPrep(R(SimElems), R(Bools), R({0, 0, 1, 5, 20}), FALSE)
+    \/ (CanFail /\ EnterPrep(R(SimElems), R(Bools), R({5, 20, 200}), TRUE))
+    \/ PrepPush(FALSE) \/ (InPrep /\ PrepPush(FALSE)) \/ (InPrep /\ PrepPush(FALSE))
+    \/ (CanFail /\ PrepPush(TRUE))
+    \/ PrepCommit
+    \/ PrepDrop(R({"return", "unwind"}))
     \/ (CanFail /\ Alloc(R(Layouts), FALSE, TRUE))
     \/ (CanFail /\ Reserve(R({600, 3000}), TRUE))
     \/ (CanFail /\ LiveIds # {} /\ LET id == R(LiveIds) IN
